@@ -92,16 +92,16 @@ check("C08", "exploration",
 
 check("C14", "exploration",
       "Row sequences mixing accepted rows, rejected cells, wrong item counts and duplicates are written one at a time through "
-      "cutplace.Writer (delimited and fixed CIDs, a sixth named by the path of a CID file, headers, whole-file checks, every line-delimiter setting, skip initial space); after every "
-      "write_row the stream is inspected and compared with the writer model (grown by exactly the row's encoding iff the row "
-      "conforms), close() is compared with the distinct-count model, and the output is read back under a fresh CID.",
+      "cutplace.Writer (delimited and fixed CIDs, a sixth named by the path of a CID file, headers, whole-file checks, every line-delimiter setting, skip initial space, both declaration orders of DistinctCount and IsUnique); after every "
+      "write_row (or write_rows with one row) the stream is inspected and compared with the writer model (grown by exactly the row's encoding iff the row "
+      "conforms), close() is compared with the distinct-count model, the same rows written to a file named by its path and handed in bulk to write_rows() of further writers must give the same output, and the output is read back under a fresh CID (its end-of-data verdict being the one of the whole-file checks over the written rows).",
       "Trusts M-field/M-rows and csv.writer for the default dialect's encoding.",
       "stream-growth monitor after every write + writer model + read-back through the real reader", "DESIGN.md 5/C14")
 
 check("C20", "exploration",
       "Recording field-format and check subclasses (the documented plugin boundary) are registered in the harness process and "
       "their call log is compared with the sequence the protocol model predicts, over generated CIDs / tables / header / limit / "
-      "three modes / reader, rows() and writer / 1-3 consecutive runs on one CID, with classes defined late, classes deriving from other user classes and checks handed over through Cid.add_check(); rejections caused by user classes must tell their row; the same classes are also loaded from a plugin "
+      "three modes / reader (also read again after close), rows(), validate() and writer / 1-3 consecutive runs on one CID, with classes defined late, classes deriving from other user classes and checks handed over through Cid.add_check(); rejections caused by user classes must tell their row; the same classes are also loaded from a plugin "
       "folder (names with glob characters included) by import_plugins and by the command line's --plugins in subprocesses and log to a file.",
       "Trusts the guard model and M-protocol; 'reset once' is judged as 'at least once before the first row, never later'.",
       "call-log monitor at the plugin boundary vs protocol model (trace specification)", "DESIGN.md 5/C20")
@@ -157,10 +157,10 @@ check("C17", "exploration",
 
 check("C19", "exploration",
       "CREATE TABLE statements are generated by the real SqlFactory for all four dialects from CIDs covering, exhaustively, every "
-      "Integer range over the boundary set +-(2^k + d) and, sampled, keyword / near-keyword names in three casings, Decimal "
-      "rules, length declarations and empty marks; the statement is parsed back and every column compared with the DDL model "
+      "Integer range over the boundary set +-(2^k + d) and +-(10^k + d) and, sampled, keyword / near-keyword names in three casings, Decimal "
+      "rules, Integer rules and length declarations of several parts in any order, empty marks, CIDs that grow through the API between two statements of one factory; the statement is parsed back and every column compared with the DDL model "
       "(order, quoting - keyword tables cross-checked with the vendors' reserved words -, NOT NULL, a column type that exists in the dialect and whose interval contains both limits, decimal digits, text length); sql.write_create() is run on CIDs stored as CSV, ODS and Excel.",
-      "Trusts the DDL model in cpverif/props/c19.py; ANSI int beyond 32 bit and open-ended ranges are unjudged.",
+      "Trusts the DDL model in cpverif/props/c19.py; ANSI int between 32 and 64 bit and open-ended ranges are unjudged.",
       "output of the real generator parsed back and judged by a DDL model, exhaustive over the type-boundary set", "DESIGN.md 5/C19")
 
 NOT_YET = "check not built yet in this session; see DESIGN.md section 5 for the planned monitor"
